@@ -130,6 +130,99 @@ class Work:
         return tp
 
 
+    # -------------------------------------------------------------------------------------------
+    def driver_mt(self, variant):
+        """Multi-threaded driver.  mt_so: library as a shared object whose writable data is made
+        read-only while the threads run; mt_tsan: everything under ThreadSanitizer."""
+        if variant in self.drivers:
+            return self.drivers[variant]
+        obj = self.path("obj-" + variant)
+        os.makedirs(obj)
+        srcs = sorted(f for f in os.listdir(os.path.join(REPO, "src")) if f.endswith(".c"))
+        inc = ["-std=gnu11", "-DPOLYSEED_STATIC", "-iquote", os.path.join(REPO, "src"), "-I", os.path.join(REPO, "include")]
+        wraps = "-Wl," + ",".join("--wrap=" + w for w in WRAPS)
+        out = self.path("driver-" + variant)
+        if variant == "mt_so":
+            # the public API must be exported from the shared object
+            inc = [x for x in inc if x != "-DPOLYSEED_STATIC"]
+            cc, lib, har = "gcc", ["-O2", "-DNDEBUG", "-fPIC", "-DPOLYSEED_SHARED"], ["-O2", "-DDRV_MT", "-DDRV_SO"]
+        else:
+            cc, lib, har = "clang", ["-O1", "-g", "-fsanitize=thread"], ["-O1", "-g", "-fsanitize=thread", "-DDRV_MT"]
+        jobs = [[cc] + inc + lib + ["-c", os.path.join(REPO, "src", f), "-o", os.path.join(obj, f[:-2] + ".o")] for f in srcs]
+        jobs.append([cc] + inc + har + ["-c", os.path.join(ROOT, "harness", "driver.c"), "-o", os.path.join(obj, "zz_driver.o")])
+        with cf.ThreadPoolExecutor(NCPU) as ex:
+            for r in ex.map(sh, jobs):
+                if r.returncode != 0:
+                    raise Infra("build (%s) failed:\n%s" % (variant, r.stdout[-3000:]))
+        libobjs = [os.path.join(obj, f[:-2] + ".o") for f in srcs]
+        if variant == "mt_so":
+            so = os.path.join(obj, "libpolyseed_verif.so")
+            r = sh([cc, "-shared", "-o", so] + libobjs + ["-Wl,-z,now", wraps])
+            if r.returncode != 0:
+                raise Infra("link (.so) failed:\n" + r.stdout[-3000:])
+            r = sh([cc, os.path.join(obj, "zz_driver.o"), "-o", out, "-L" + obj, "-lpolyseed_verif", "-Wl,-rpath," + obj, "-rdynamic",
+                    "-lutf8proc", "-lpthread", "-Wl,-z,now", wraps])
+        else:
+            r = sh([cc, "-fsanitize=thread"] + libobjs + [os.path.join(obj, "zz_driver.o"), "-o", out, "-lutf8proc", "-lpthread", "-Wl,-z,now", wraps])
+        if r.returncode != 0:
+            raise Infra("link (%s) failed:\n%s" % (variant, r.stdout[-3000:]))
+        self.drivers[variant] = out
+        return out
+
+    def record_mt(self, variant, name, setup_lines, thread_scripts):
+        """Run the threads; returns (list of per-thread traces composed with the setup events, stderr)."""
+        drv = self.driver_mt(variant)
+        base = self.fresh(".mt")
+        setup = base + ".setup.script"
+        with open(setup, "w") as f:
+            f.write("\n".join(setup_lines) + "\n")
+        paths = []
+        for i, lines in enumerate(thread_scripts):
+            p = "%s.t%d.script" % (base, i)
+            with open(p, "w") as f:
+                f.write("\n".join(lines) + "\n")
+            paths.append(p)
+        env = dict(os.environ)
+        env["TSAN_OPTIONS"] = "halt_on_error=0:report_signal_unsafe=0:exitcode=0:second_deadlock_stack=1"
+        try:
+            r = subprocess.run([drv, setup, base + ".trace"] + paths, stdout=subprocess.PIPE, stderr=subprocess.PIPE, env=env, timeout=900)
+        except subprocess.TimeoutExpired:
+            raise Infra("multi-threaded driver timed out")
+        err = r.stderr.decode("utf-8", "replace")
+        if not os.path.exists(base + ".trace.setup"):
+            raise Infra("multi-threaded driver failed (%d): %s" % (r.returncode, err[-2000:]))
+        setup_ev = [l for l in open(base + ".trace.setup").read().splitlines() if not l.startswith(('{"e":"Start"', '{"e":"End"'))]
+        start = open(base + ".trace.setup").readline().rstrip("\n")
+        traces = []
+        race = "ThreadSanitizer: data race" in err
+        for i in range(len(thread_scripts)):
+            tp = "%s.trace.%d" % (base, i)
+            body = []
+            complete = False
+            if os.path.exists(tp):
+                for l in open(tp).read().splitlines():
+                    if l.startswith(('{"e":"Start"', '{"e":"Thread"')):
+                        continue
+                    if l.startswith('{"e":"End"'):
+                        complete = '"complete":true' in l
+                        continue
+                    if l.strip():
+                        body.append(l)
+            outp = "%s.t%d.ndjson" % (base, i)
+            with open(outp, "w") as f:
+                f.write(start + "\n")
+                f.write('{"e":"Reset","name":"%s-t%d"}\n' % (name, i))
+                f.write("\n".join(setup_ev + body) + "\n")
+                if race and i == 0:
+                    f.write('{"e":"Fault","op":"threads","what":"race","sig":0,"inapi":true}\n')
+                    complete = False
+                elif not complete and not any('"e":"Fault"' in b for b in body[-2:]):
+                    f.write('{"e":"Fault","op":"threads","what":"thread-died","sig":0,"inapi":true}\n')
+                f.write('{"e":"End","complete":%s}\n' % ("true" if complete else "false"))
+            traces.append(outp)
+        return traces, err
+
+
 # -----------------------------------------------------------------------------------------------
 # TLC
 
